@@ -22,16 +22,18 @@ GEN = {"und4": "modularity_louvain_und", "und5": "modularity_louvain_und",
        "fdir4": "modularity_finetune_dir"}
 GEN_B = ["mod5", "moddir4", "potts5", "nsym4", "nasym4"]      # community_louvain (LouvainBImpl)
 MCB_QUICK = ["q_mod4", "q_nsym3", "q_mod3d"]
-MCB_THOROUGH = ["q_mod4", "q_moddir3", "q_potts4", "q_nsym3", "q_nasym3", "t_mod4w", "t_nsym4", "t_nasym4", "t_moddir4",
+MCB_THOROUGH = ["q_mod4", "q_moddir3", "q_potts4", "q_nsym3", "q_nasym3", "t_mod4w", "t_nsym4", "t_nasym4",
                 "q_mod3d", "t_moddir3d", "t_potts3d"]
 GEN_S = {"sta4": "modularity_louvain_und_sign", "gja4": "modularity_louvain_und_sign",
          "pos4": "modularity_louvain_und_sign", "fsmp4": "modularity_finetune_und_sign",
          "fneg4": "modularity_finetune_und_sign"}                  # signed routines (LouvainSImpl)
 MCS_QUICK = ["q_fgja3"]
-MCS_THOROUGH = ["q_sta4", "q_fgja3", "t_smp4", "t_fneg4", "t_pos4", "t_fsta4"]
+MCS_THOROUGH = ["q_sta4", "q_fgja3", "t_smp4", "t_pos4"]
 MC_QUICK = ["q_und4", "q_fdir3", "q_und3d"]
-MC_THOROUGH = ["q_und4", "q_und4g", "q_fund4", "q_dir3", "q_fdir3", "t_und4w", "t_fund4w", "t_fdir4",
+MC_THOROUGH = ["q_und4", "q_und4g", "q_fund4", "q_dir3", "q_fdir3", "t_und4w",
                "q_und3d", "t_fund3d", "t_dir3d", "t_und4d"]      # ..d: inputs with self-connections
+# (kept as cfg files for deeper runs by hand, each 20..45 min on 6 workers: MC_Louvain_t_fund4w / _t_fdir4,
+#  MC_LouvainB_t_moddir4, MC_LouvainS_t_fneg4 / _t_fsta4; t_fund4w passed with 21.7 M states in 2405 s)
 GAMMAS = [(1, 1), (3, 4), (5, 4)]
 QTYPES = ["sta", "pos", "smp", "gja", "neg"]
 
@@ -286,6 +288,22 @@ def random_jobs(ctx, prop, count):
         if fn == "community_louvain":
             job["objective"] = "modularity"
         jobs.append(job)
+    # the smallest networks: one node with a self-connection, two nodes (positive total weight), with
+    # and without a given start partition, arbitrary labels
+    for fn in unsigned:
+        for W in ([[2.0]], [[1.0, 1.0], [1.0, 0.0]], [[0.0, 3.0], [3.0, 0.0]], [[1.0, 2.0], [2.0, 1.0]]):
+            n = len(W)
+            if lc.KIND[fn] == "dir" and n == 2 and rng.random() < 0.5:
+                W = [[0.0, 2.0], [1.0, 1.0]]
+            gn, gd = rng.choice(GAMMAS)
+            job = dict(fn=fn, prop=prop, W=W, gn=gn, gd=gd, seed=rng.randrange(2 ** 31), src="tiny")
+            if fn == "community_louvain":
+                job["objective"] = "modularity"
+            jobs.append(job)
+            if fn in lc.TAKES_START:
+                lab = rng.sample(labels_pool, n)
+                jobs.append(dict(job, start=lab, feedback=1))
+                jobs.append(dict(job, start=[lab[0]] * n))
     # modularity_und/_dir/_und_sign for a given partition
     for t in range(max(30, count // 6)):
         which = t % 3
